@@ -22,6 +22,12 @@ Theorem no_shared_state_writers : shared_state_writers = [].
 Proof. reflexivity. Qed.
 Print Assumptions no_shared_state_writers.
 
+(* no function body builds a set (the order of iteration over a set of strings depends on PYTHONHASHSEED): the encoders
+   are order-preserving dict / list based *)
+Theorem no_hash_order_dependence : set_constructions = [].
+Proof. reflexivity. Qed.
+Print Assumptions no_hash_order_dependence.
+
 (* a straight-line run in which every read is preceded by a write of the same call observes nothing of the state that
    earlier calls left behind — for every value domain and every computation *)
 Theorem call_state_independent V compute p s s' :
